@@ -1403,7 +1403,7 @@ func orderCommitClear(r *engine.Run, rule string) {
 	if f == nil {
 		return
 	}
-	var resets []*ssa.Store
+	var resets []ssa.Instruction
 	var adds []*ssa.Call
 	engine.Instrs(f, func(in ssa.Instruction) {
 		switch x := in.(type) {
@@ -1412,6 +1412,14 @@ func orderCommitClear(r *engine.Run, rule string) {
 				resets = append(resets, x)
 			}
 		case *ssa.Call:
+			// delete(bc.cache, key): an entry leaves the pending map
+			if b, ok := x.Call.Value.(*ssa.Builtin); ok && b.Name() == "delete" && len(x.Call.Args) == 2 {
+				if ld, ok := x.Call.Args[0].(*ssa.UnOp); ok && ld.Op == token.MUL {
+					if fa, ok := ld.X.(*ssa.FieldAddr); ok && fieldName(fa) == "BlockCache.cache" {
+						resets = append(resets, x)
+					}
+				}
+			}
 			if extCalleeIs(x, "hashicorp/golang-lru", "Cache", "Add") && !lruCallOnField(x, "Add", "cache") && !lruCallOnField(x, "Add", "hashCache") {
 				adds = append(adds, x)
 			}
@@ -1429,8 +1437,8 @@ func orderCommitClear(r *engine.Run, rule string) {
 			}
 		}
 	}
-	r.Check(bad == "", rule, fn(f)+"|pending map cleared last", r.P.Pos(f.Pos()), "no versions-map Add is reachable after the block's pending map was replaced",
-		"commit replaces the block's pending map ("+bad+") before its entries are published: if the publishing loop is interrupted (a Clone panics and the caller recovers), the writes are gone, a repeated Commit publishes nothing and links the block with only part of its writes")
+	r.Check(bad == "", rule, fn(f)+"|pending map cleared last", r.P.Pos(f.Pos()), "no versions-map Add is reachable after the block's pending map was replaced or an entry deleted from it",
+		"commit replaces the block's pending map or deletes from it ("+bad+") before all its entries are published: if the publishing loop is interrupted (a Clone panics and the caller recovers), the writes are gone from the block's own view while the block is neither linked nor marked committed - its lookups answer with the parent's values, and a repeated Commit publishes only the rest")
 }
 
 // whoGlobalCache: the caches are per block / per transaction objects. A
